@@ -59,6 +59,22 @@ Theorem C04_store_durable_key : forall c ls k,
 Proof. exact store_durable_key. Qed.
 Print Assumptions C04_store_durable_key.
 
+(* "not purged SINCE": ls0 = what happened before anything wrote or Del-requested the key (purges of its queue
+   included: they are harmless there), ls1 = everything after, with no Del of the key and no purge covering it *)
+Theorem C04_store_durable_since : forall c ls0 ls1 k,
+  forallb (untouched k) ls0 = true -> forallb (label_safe k) ls1 = true ->
+  relay_in k (snd (ms_run (ms_init Badger true c) (ls0 ++ ls1))) = true ->
+  kv_mem (ms_db (ms_kill (fst (ms_run (ms_init Badger true c) (ls0 ++ ls1))))) k = true.
+Proof. exact store_durable_since. Qed.
+Print Assumptions C04_store_durable_since.
+
+Example C04_store_durable_since_example :
+  let ls0 := [MAdd (mk 90 1) qa; MPersistTick; MPurge qa; MKill] in
+  let ls1 := [MAdd (mk 100 2) qa; MPersistTick; MKill; MDel (mk 90 1) qa; MPersistTick] in
+  forallb (untouched (msg_key qa 100)) ls0 = true /\ forallb (label_safe (msg_key qa 100)) ls1 = true /\
+  relay_in (msg_key qa 100) (snd (ms_run (ms_init Badger true true) (ls0 ++ ls1))) = true.
+Proof. vm_compute. repeat split; reflexivity. Qed.
+
 (* nothing recover(q) returns was never Added (or Updated) for q - both engines *)
 Theorem C04_store_no_phantom_partial : forall e p c ls q limit x,
   nof21 (q :: label_names ls) = true ->
